@@ -135,7 +135,13 @@ fn mk(m128: bool, dirt: usize, rng: &mut Rng, mouse: bool, kempston: bool) -> Em
 }
 
 fn mk_rate(m128: bool, dirt: usize, rng: &mut Rng, mouse: bool, kempston: bool, rate: usize) -> Emu {
-    let cfg = MCfg { m128, ay: true, ay_mode: 1, kempston, mouse, rate, ..Default::default() };
+    mk_cfg(m128, dirt, rng, mouse, kempston, rate, true)
+}
+
+/// `ay`: whether the host has AY sound enabled in its settings before the load (the chip is part of
+/// the machine either way)
+fn mk_cfg(m128: bool, dirt: usize, rng: &mut Rng, mouse: bool, kempston: bool, rate: usize, ay: bool) -> Emu {
+    let cfg = MCfg { m128, ay, ay_mode: 1, kempston, mouse, rate, ..Default::default() };
     let mut e = new_emu(&cfg);
     dirty_receiver(&mut e, dirt, rng, m128);
     e
@@ -267,7 +273,7 @@ impl Property for C14 {
         ]
     }
     fn expected_probes(&self) -> Vec<&'static str> {
-        vec!["sna_loaded", "szx_loaded", "szx_compressed_page", "szx_unknown_chunk", "dirty_receiver", "ay_twin_compared", "halted_flag", "eilast_flag", "encodings_compared", "mismatch_rejected", "scr_loaded", "presence_checked", "locked_file", "display_checked", "display_other_bank_checked", "same_file_loaded_twice"]
+        vec!["sna_loaded", "szx_loaded", "szx_compressed_page", "szx_unknown_chunk", "dirty_receiver", "ay_twin_compared", "halted_flag", "eilast_flag", "encodings_compared", "mismatch_rejected", "scr_loaded", "presence_checked", "locked_file", "display_checked", "display_other_bank_checked", "same_file_loaded_twice", "receiver_with_ay_disabled"]
     }
 
     fn gen(&self, rng: &mut Rng, _tier: Tier, idx: u64) -> Scenario {
@@ -363,7 +369,11 @@ impl Property for C14 {
                     ctx.fault("snapshot_load@instant");
                 }
                 let mut drng = Rng::new(sc.get("seed") as u64 ^ 0xD1);
-                let mut r1 = mk(m128, dirt, &mut drng, !s.mouse, !s.kempston);
+                let r1_ay = (sc.get("seed") >> 11) & 1 == 0;
+                if !r1_ay {
+                    ctx.probe("receiver_with_ay_disabled");
+                }
+                let mut r1 = mk_cfg(m128, dirt, &mut drng, !s.mouse, !s.kempston, 44100, r1_ay);
                 let mut r2 = mk(m128, 0, &mut drng, false, false);
                 // the same file loaded twice: the dirty receiver has already loaded this very file (and, in half
                 // of the cases, run a frame of it) when it is loaded for the comparison
